@@ -60,6 +60,17 @@ func c15e3RaceRound(v c15e3Variant, round int) (returned int) {
 			mu.Unlock()
 		})
 	}
+	if v.Opens > 0 {
+		bodies = append(bodies, func() {
+			for i := 0; i < v.Opens; i++ {
+				if v.Uni {
+					m.OpenUniStream()
+				} else {
+					m.OpenStream()
+				}
+			}
+		})
+	}
 	var ev []func()
 	incoming := 0
 	for _, e := range v.Events {
